@@ -12,6 +12,7 @@
 import Kitoken.Proofs.ConvertLemmas
 import Kitoken.Theorems.C15b
 import Kitoken.Theorems.C15c
+import Kitoken.Theorems.C15d
 namespace Kitoken.C15
 
 open Kitoken Kitoken.Spec Kitoken.Convert
